@@ -121,7 +121,8 @@ META = {
  "C15": dict(
   explanation="Same harness family with the matcher a fully symbolic predicate over the paths CMinx asks about: an entry is processed iff the predicate is false for it and its ancestors; "
               "excluded directories are not descended into; an excluded input path has no recorded effect; directories are asked in directory form. Adjacency/order covered by per-position verdicts and symbolic listing order.",
-  assumptions=["as C13"], outside=["that pathspec's GitWildMatchPattern implements gitignore semantics for the absolute paths CMinx passes (third-party regex translation, trusted)"], trusted=TRUSTED_CH),
+  assumptions=["as C13"], outside=["that pathspec's GitWildMatchPattern implements gitignore semantics for the absolute paths CMinx passes (third-party regex translation, trusted)",
+           "patterns are matched against ABSOLUTE paths (CMinx's documented design): an unanchored pattern can match a component of the input tree's own location; the matcher is a symbolic verdict per path here, so what a pattern matches is not decided"], trusted=TRUSTED_CH),
  "C16": dict(
   explanation="CrossHair through the real cminx.main -> argparse -> confuse -> config_template -> dict_to_settings, one shard per option of the input/output/rst sections (taken from the real template): "
               "for every subset of sources that set the option and symbolic values, the value in effect == highest-priority source, else the packaged default (a command-line value may be the empty string); exclude filters = union as a set (a file may give the empty list); "
@@ -135,7 +136,7 @@ META = {
               "(d) hash seed: inside the cminx modules set/frozenset are replaced by a model whose iteration order the harness chooses (insertion order / reversed); main() run under both orders hands the exclude patterns to the matcher in the same order; "
               "(b) frame lemma: processing any pair of command kinds leaves RSTWriter.heading_level_chars, the constructors' default Settings instances and the passed Settings unchanged, "
               "and re-processing after an unrelated file gives the same page; (c) lone file: title/module name = base name, independent of the location.",
-  assumptions=["as C13"], outside=["hash-seed dependence through anything but the iteration order of set/frozenset objects built in cminx's own modules (explicit hash() calls, sets built inside third-party code) is not decided", "the set model offers two orders (insertion, reversed), not every permutation"], trusted=TRUSTED_CH),
+  assumptions=["as C13"], outside=["location dependence through the exclude-pattern language (patterns see absolute paths; the matcher is a symbolic verdict per path)", "hash-seed dependence through anything but the iteration order of set/frozenset objects built in cminx's own modules (explicit hash() calls, sets built inside third-party code) is not decided", "the set model offers two orders (insertion, reversed), not every permutation"], trusted=TRUSTED_CH),
  "C18": dict(
   explanation="(a) every recorded makedirs/write lies under the output directory for every placement of it (elsewhere, nested in the input tree, parent of it, relative), nothing is printed; CrossHair's "
               "side-effect guard is on: no real file-system write happens on any explored path; (b) stdout mode: nothing written, stdout == exactly the pages of the -o run, each followed by one empty line, sorted within a directory.",
